@@ -111,15 +111,40 @@ class RandTopoExecutor(Executor):
 
 
 def compute_with(fut, sched: str):
+    """compute one Delayed, or a list of them in ONE dask.compute call (shared tasks, one scheduler run)"""
+    import dask  # pylint: disable=import-outside-toplevel
+
+    many = isinstance(fut, (list, tuple))
+    futs = list(fut) if many else [fut]
     if sched == "sync":
-        return fut.compute(scheduler="synchronous")
-    if sched.startswith("threads"):
-        return fut.compute(scheduler="threads", num_workers=int(sched[7:]))
-    ex = RandTopoExecutor(int(sched[4:]))
-    try:
-        return fut.compute(scheduler=ex)
-    finally:
-        ex.shutdown()
+        out = dask.compute(*futs, scheduler="synchronous")
+    elif sched.startswith("threads"):
+        out = dask.compute(*futs, scheduler="threads", num_workers=int(sched[7:]))
+    else:
+        ex = RandTopoExecutor(int(sched[4:]))
+        try:
+            out = dask.compute(*futs, scheduler=ex)
+        finally:
+            ex.shutdown()
+    return list(out) if many else out[0]
+
+
+# ambient dask configurations a caller may be running under (graph construction and compute both happen inside)
+DASK_CFGS = [
+    {},
+    {},
+    {"optimization.fuse.active": False},
+    {"optimization.fuse.active": True, "optimization.fuse.ave-width": 10, "optimization.fuse.max-width": 50},
+    {"array.chunk-size": "1KiB"},
+    {"array.rechunk.method": "tasks", "array.slicing.split-large-chunks": True},
+    {"array.chunk-size": "4KiB", "optimization.fuse.active": False, "bag.shuffle": "tasks"},
+]
+
+
+def dask_cfg(cfg):
+    import dask  # pylint: disable=import-outside-toplevel
+
+    return dask.config.set(DASK_CFGS[cfg.get("dask_cfg", 0) % len(DASK_CFGS)])
 
 
 # --------------------------------------------------------------------------- encoders for the line protocol
@@ -283,6 +308,10 @@ def gen_cfg(rng: random.Random, big: bool):
     hi = 300 if big else 120
     side = lambda: rng.choice([1, 1, 2, 3, 4, 5, 8, 15, 16, 17, 31, 32, 33, rng.randint(1, hi), rng.randint(1, hi), rng.randint(1, hi)])
     ny, nx = side(), side()
+    if ax == "SYX" and ns == ny == nx:
+        # an n x n x n band-first cube over an n x n GeoBox is inherently ambiguous for `yaxis_from_shape` (it is read as
+        # band-last, like in C15's `_write_cog`); reported as ambiguous in DESIGN, not generated / judged here
+        nx += 1
     dt = rng.choice(DTYPES)
 
     def blk():
@@ -326,6 +355,7 @@ def gen_cfg(rng: random.Random, big: bool):
         stats=rng.choice([True, False, True]),
         sched=rng.choice(["sync", "threads1", "threads2", "threads4", "threads8", "rand", "rand", "rand"]),
         pixseed=rng.randint(0, 10**6), level=rng.choice([None, None, 1, 9]), dyadic=rng.random() < 0.75,
+        dask_cfg=rng.randrange(len(DASK_CFGS)),
     )
 
 
@@ -383,9 +413,33 @@ def fill_eq(arr, fill) -> bool:
     return bool(np.all(arr == fill))
 
 
-def e2e(cfg, workdir: str, tag: str):
+def sched_of(cfg) -> str:
+    return f"rand{cfg['pixseed']}" if cfg["sched"] == "rand" else cfg["sched"]
+
+
+def write_together(cfgs, workdir: str, tags):
+    """Build the graphs of several configurations and run them in ONE dask.compute (one scheduler run, shared source
+    tasks when the arrays coincide, interleaved multi-part writers).  Returns None or (key, what)."""
+    _, _, T, GeoBox, wrap_xr = _imp()
+    try:
+        with dask_cfg(cfgs[0]):
+            futs = []
+            for cfg, tag in zip(cfgs, tags):
+                xx, _, _, skw = build_input(cfg, GeoBox, wrap_xr)
+                fn = os.path.join(workdir, f"{tag}.tif")
+                if os.path.exists(fn):
+                    os.unlink(fn)
+                futs.append(T.save_cog_with_dask(xx, fn, **dict(skw)))
+            compute_with(futs, sched_of(cfgs[0]))
+    except Exception as e:  # pylint: disable=broad-except
+        return (f"save-cog-raises:{type(e).__name__}@joint-compute", f"{type(e).__name__}: {str(e)[:200]}")
+    return None
+
+
+def e2e(cfg, workdir: str, tag: str, precomputed: bool = False):
     """Run one end-to-end case on the real code.  Returns (facts, failures): `facts` are the
-    canonical strings for the correspondence lines, `failures` = [(key, what)] of the oracle."""
+    canonical strings for the correspondence lines, `failures` = [(key, what)] of the oracle.
+    precomputed=True: the file was already written by `write_together`; only judge it."""
     # pylint: disable=import-outside-toplevel,too-many-locals,too-many-branches,too-many-statements
     import rasterio
     import tifffile
@@ -400,7 +454,7 @@ def e2e(cfg, workdir: str, tag: str):
     ny, nx = cfg["shape"]
     ax = cfg["axis"]
     fn = os.path.join(workdir, f"{tag}.tif")
-    if os.path.exists(fn):
+    if os.path.exists(fn) and not precomputed:
         os.unlink(fn)
 
     # ---- what the header writer decided (no compute)
@@ -416,7 +470,8 @@ def e2e(cfg, workdir: str, tag: str):
         lb = bl[-1]
         last_tile = (lb, lb) if isinstance(lb, int) else tuple(lb)
     try:
-        dry = T.save_cog_with_dask(xx, "", **dict(skw))
+        with dask_cfg(cfg):
+            dry = T.save_cog_with_dask(xx, "", **dict(skw))
         meta = dry["meta"]
         facts["cog"] = cog_s(meta)
     except Exception as e:  # pylint: disable=broad-except
@@ -426,14 +481,17 @@ def e2e(cfg, workdir: str, tag: str):
 
     # ---- the real parallel write
     try:
-        fut = T.save_cog_with_dask(xx, fn, **dict(skw))
-        sched = cfg["sched"]
-        if sched == "rand":
-            sched = f"rand{cfg['pixseed']}"
-        rr = compute_with(fut, sched)
-        if str(rr) != fn or not os.path.exists(fn):
-            fails.append(("save-cog-no-file", f"compute() returned {rr!r}"))
-            return facts, fails
+        if precomputed:
+            if not os.path.exists(fn):
+                fails.append(("save-cog-no-file", "joint compute left no file"))
+                return facts, fails
+        else:
+            with dask_cfg(cfg):
+                fut = T.save_cog_with_dask(xx, fn, **dict(skw))
+                rr = compute_with(fut, sched_of(cfg))
+            if str(rr) != fn or not os.path.exists(fn):
+                fails.append(("save-cog-no-file", f"compute() returned {rr!r}"))
+                return facts, fails
     except Exception as e:  # pylint: disable=broad-except
         tb = traceback.extract_tb(e.__traceback__)
         loc = [f"{os.path.basename(t.filename)}:{t.name}" for t in tb if "odc/geo" in t.filename][-1:]
@@ -626,9 +684,9 @@ def cfg_sig(cfg) -> str:
     return f"e2e|{cfg['axis']}|{narrow}|{cfg['comp']}|{sched}"
 
 
-def run_e2e(R: Run, cfg, workdir: str, tag: str):
+def run_e2e(R: Run, cfg, workdir: str, tag: str, precomputed: bool = False):
     try:
-        facts, fails = with_timeout(180.0, lambda: e2e(cfg, workdir, tag))
+        facts, fails = with_timeout(180.0, lambda: e2e(cfg, workdir, tag, precomputed))
     except _Timeout:
         facts, fails = {}, [("save-cog-does-not-finish", "writing / decoding one small image did not finish within 180 s")]
     except Exception as e:  # pylint: disable=broad-except
@@ -988,9 +1046,109 @@ def run(R: Run):
             if uncompressed_single_tile_level(cfg):
                 cfg["comp"] = "zstd"  # the uncompressed variant would hang, see the probe below
                 R.count("e2e|uncompressed-single-tile-level-avoided")
-            run_e2e(R, cfg, workdir, f"c{i}")
+            if i % 4 == 1:
+                # state across calls: a second graph computed in the SAME dask.compute — the same source array to a
+                # second destination with other writer options, or an unrelated image
+                if rng.random() < 0.5:
+                    cfg2 = dict(cfg, spill_sz=rng.choice([None, 1, 5000]), wpc=rng.choice([None, 1, 3]),
+                                comp=rng.choice(["deflate", "zstd"]), bigtiff=rng.choice([None, False]),
+                                blocksize=rng.choice([cfg["blocksize"], [16], [32, 16]]))
+                else:
+                    cfg2 = gen_cfg(rng, big=False)
+                    cfg2["dyadic"] = True
+                if uncompressed_single_tile_level(cfg2):
+                    cfg2["comp"] = "zstd"
+                try:
+                    bad = with_timeout(240.0, lambda: write_together([cfg, cfg2], workdir, [f"c{i}", f"c{i}b"]))
+                except _Timeout:
+                    bad = ("save-cog-does-not-finish", "joint compute of two graphs did not finish within 240 s")
+                if bad is not None:
+                    # tell apart "this pair fails only together" from "one of them fails alone"
+                    run_e2e(R, cfg, workdir, f"c{i}")
+                    run_e2e(R, cfg2, workdir, f"c{i}b")
+                    R.oracle(False, bad[0], {"pair": [cfg, cfg2]}, bad[1], sig="e2e|joint-compute")
+                else:
+                    R.count("e2e|joint-compute-pairs")
+                    run_e2e(R, cfg, workdir, f"c{i}", precomputed=True)
+                    run_e2e(R, cfg2, workdir, f"c{i}b", precomputed=True)
+                    done += 1
+            else:
+                run_e2e(R, cfg, workdir, f"c{i}")
             done += 1
         R.extra["e2e_files_written"] = done
+
+        # ---- hand-off to the multi-part writer with synthetic tile payloads (no codec involved): bytes AND bytearray
+        # payloads of arbitrary sizes incl. empty ones, tiles in arbitrary order, two destinations fed from the same
+        # bags in one compute.  Exact oracle: file = patched header ++ payloads in stream order, every
+        # TileOffsets/TileByteCounts entry addresses exactly its payload, payload objects are left untouched.
+        import dask.bag  # pylint: disable=import-outside-toplevel
+        from odc.geo.cog._mpu import mpu_write  # pylint: disable=import-outside-toplevel
+        from odc.geo.cog._mpu_fs import MPUFileSink  # pylint: disable=import-outside-toplevel
+
+        def handoff_case(k):
+            y, x, ns = rng.randint(1, 150), rng.randint(1, 150), rng.randint(1, 3)
+            shape = rng.choice([[y, x], [ns, y, x]])
+            meta, hdr0 = T._make_empty_cog(tuple(shape), "uint8", mk_gbox(rng, y, x, GeoBox),  # pylint: disable=protected-access
+                                           blocksize=[rng.choice([16, 32, (16, 48)]) for _ in range(rng.randint(1, 2))],
+                                           bigtiff=rng.random() < 0.7, gdal_metadata=None)
+            hdr0 = bytes(hdr0)
+            ms = list(meta.flatten())
+            idx = list(meta.cog_tidx())
+            if rng.random() < 0.6:
+                rng.shuffle(idx)
+
+            def payload():
+                n = rng.choice([0, rng.randint(1, 40), rng.randint(1, 400), rng.randint(1, 400), rng.randint(4000, 30000)])
+                b = rng.randbytes(n)
+                return bytearray(b) if rng.random() < 0.5 else b
+
+            items = [(payload(), t) for t in idx]
+            copies = [bytes(p_) for p_, _ in items]
+            nb = rng.randint(1, min(4, len(items)))
+            cuts = sorted(rng.sample(range(1, len(items)), nb - 1)) if nb > 1 else []
+            parts = [items[a:b] for a, b in zip([0] + cuts, cuts + [len(items)])]
+            bags = [dask.bag.from_sequence(pt, npartitions=rng.randint(1, max(1, min(6, len(pt))))) for pt in parts]
+            dsts = [os.path.join(workdir, f"h{k}{c}.tif") for c in "ab"]
+            sched = rng.choice(["sync", "threads2", "threads4", f"rand{rng.randint(0, 10**6)}"])
+            case = {"fn": "mpu_write+_patch_hdr", "shape": shape, "sizes": [len(c) for c in copies][:60], "sched": sched}
+            try:
+                futs = [mpu_write(bags, MPUFileSink(d), mk_header=T._patch_hdr,  # pylint: disable=protected-access
+                                  user_kw={"meta": meta, "hdr0": hdr0, "stats": None},
+                                  spill_sz=rng.choice([0, 1, 5000, 20000, 20 * (1 << 20)]), writes_per_chunk=rng.randint(1, 3))
+                        for d in dsts]
+                with_timeout(120.0, lambda: compute_with(futs, sched))
+            except Exception as e:  # pylint: disable=broad-except
+                R.oracle(False, f"handoff-raises:{type(e).__name__}", case, f"{type(e).__name__}: {str(e)[:200]}", sig="handoff")
+                return
+            bad = []
+            if any(bytes(p_) != c for (p_, _), c in zip(items, copies)):
+                bad.append(("handoff-payload-mutated", "a tile payload object was modified in place by the writer"))
+            body = b"".join(copies)
+            for d in dsts:
+                raw = open(d, "rb").read()
+                hsz = len(raw) - len(body)
+                if hsz < len(hdr0) or raw[hsz:] != body:
+                    bad.append(("handoff-stream-differs", f"{os.path.basename(d)}: file is not header ++ payloads in stream order"))
+                    continue
+                with tifffile.TiffFile(BytesIO(raw)) as tf:
+                    tags = [(list(p_.tags[324].value), list(p_.tags[325].value)) for p_ in tf.pages]
+                for (i_, p_, y_, x_), c in zip(idx, copies):
+                    f_ = ms[i_].flat_tile_idx((p_, y_, x_))
+                    o, n = tags[i_][0][f_], tags[i_][1][f_]
+                    if n != len(c) or (n and raw[o:o + n] != c):
+                        bad.append(("handoff-tile-entry-wrong", f"IFD {i_} tile {f_}: entry ({o},{n}) does not address its {len(c)} bytes"))
+                        break
+                if d == dsts[0]:
+                    obs = list_s([f"{i_};{p_};{y_};{x_};{len(c)}" for (i_, p_, y_, x_), c in zip(idx, copies)])
+                    R.corr(f"c05 patch {list_s(ms, meta_s)} {hsz} {obs}", lambda: info_s(tags), sig="handoff|offsets")
+                os.unlink(d)
+            R.oracle(not bad, bad[0][0] if bad else "handoff", case, "; ".join(w for _, w in bad[:3]), sig="handoff")
+
+        for k in range(R.pick(25, 400)):
+            try:
+                handoff_case(k)
+            except Exception:  # pylint: disable=broad-except
+                R.oracle(False, "handoff-harness-exception", {"k": k}, traceback.format_exc()[-600:], sig="handoff")
 
         # probe of the known finding: uncompressed + a level of exactly one tile → `_make_empty_cog` never returns
         probe = {"fn": "_make_empty_cog", "shape": [32, 32], "gbox": "N", "blocksize": ["16"], "compression": "none"}
